@@ -13,7 +13,7 @@ def bounded(res, cases, name):
     r, n = rp.run_cases(cases)
     add_direct(res, f"bounded:{name}", "bounded", r is None, note="statement evaluated on the real samplers",
                backend="bounded", model=r)
-    res.bounded.append({"name": name, "bound": "n<=7, world sizes<=4, num_repeats<=3, 2 seeds x 2 epochs; 5 class layouts",
+    res.bounded.append({"name": name, "bound": "n<=7, world sizes<=4, num_repeats<=3, 2 seeds x 2 epochs; 5 class layouts x samples_per_class in {None,1,3,5,7,13} (the heavy oversampling values 7 / 13 with 4 seeds)",
                         "evaluations": n, "distinct": n,
                         "rule": "distinct (sampler kind, size, world size, repeats, drop_last, seed, epoch) tuples; all ranks of each are run "
                                 "and interleaved back into the global draw recomputed from the statement",
